@@ -30,8 +30,6 @@ import (
 	"io"
 	"log/slog"
 	"math/rand/v2"
-	"os"
-	"runtime/pprof"
 	"strings"
 
 	"verif/harness/internal/mon"
@@ -594,11 +592,6 @@ func (w *checker) checkProducer(c caseT, ref, got runT, wit map[string]any, sig 
 }
 
 func main() {
-	if f := os.Getenv("WK_PROF"); f != "" {
-		fh, _ := os.Create(f)
-		pprof.StartCPUProfile(fh)
-		defer pprof.StopCPUProfile()
-	}
 	r := mon.Start("C19")
 	defer r.Finish()
 	r.SetRule("case i = (kind i mod 8 over producer / unary / exchange / void; cap kind cycled over max_response_bytes, max_externalized_response_bytes, both; emission pattern: 1..30 batches (exchange 1..6 turns) of 16 B..512 KiB, 1..4 rows or zero rows, inline or above the 1 KiB externalisation threshold, optional logs and per-batch metadata; batch limit 0/2/5; cap picked from the uncapped dry run: 1..8 B, a response/batch/upload boundary -1/0/+1, the total, 2x the total, uniform in 1..2x total); distinct = kind x cap kind x pick x external x limit x #turns")
@@ -624,5 +617,4 @@ func main() {
 		w.store.Reset()
 	}
 	r.Count("cases", int64(n))
-	pprof.StopCPUProfile()
 }
